@@ -2,6 +2,7 @@ package main
 
 import (
 	"fmt"
+	"path/filepath"
 	"regexp"
 	"strings"
 )
@@ -358,5 +359,69 @@ func checkC01(tier string) {
 	aggregateE1(rep, "C01", cases, res, bound+"; x {Equal, Compare, Hash, DeepCopy, Clone, GoString}; call-site forms {closure in a package-level var, function body, package-level var initialiser, in-package _test file, one-argument curried form, nested derive call typeable only after a first pass} over depth <= 1; list helpers {Sort, Keys, Min, Max, Contains, Unique, Set, Union, Intersect, Filter, TakeWhile, All, Any, Fmap, Join, Traverse, Mem, Sort(Keys())} over "+ebound+"; name-pressure packages; a named slice type as argument next to another named slice type with the same underlying type as a field (5 plugins); chains of 4, 5 and 6 nested calls; _test-file calls next to calls needing a second pass; late-typeable calls named like a minted helper (prefix_, prefix_1) x {Equal, Compare, Hash, GoString, DeepCopy} x both source orders; both same-named imports appear together in the batches",
 		"state = one program: (type shape, plugin, call-site form), placed in a scenario package with up to 59 others; transition = one run of the real goderive on the package plus one run of the Go type checker (go build / go test -run ^$ for the _test form) on sources + derived.gen.go, including bisection and confirmation runs that isolate a failing program; the oracle is exit 0 and zero compiler errors (covers unresolved, redeclared and not-assignable calls, missing and unused imports); non-trivial = every program")
 	rep.Cov["distinct_nontrivial"] = len(cases) - len(res.Failures)
+	rep.Cov["multi_package_runs"] = c01MultiPackage(rep)
 	rep.Finish()
+}
+
+// c01MultiPackage: several packages in one invocation, some of which need further passes for
+// textually identical calls; every one of them must come out complete.
+func c01MultiPackage(rep *Reporter) int {
+	nested := func(pkg string) string {
+		return "package " + pkg + "\n\nfunc keys(m map[string]int) []string {\n\treturn deriveSort(deriveKeys(m))\n}\n"
+	}
+	deep := func(pkg string) string {
+		return "package " + pkg + "\n\nfunc same(m map[string]int, w []string) bool {\n\treturn deriveEqual(deriveSort(deriveKeys(m)), w)\n}\n"
+	}
+	flat := func(pkg string) string {
+		return "package " + pkg + "\n\ntype S struct {\n\tA int\n\tB []string\n}\n\nfunc same(a, b *S) bool {\n\treturn deriveEqual(a, b)\n}\n"
+	}
+	scen := []struct {
+		name  string
+		files pkgFiles
+		pkgs  []string
+	}{
+		{"two-packages-same-nested-call", pkgFiles{"a/a.go": nested("a"), "b/b.go": nested("b")}, []string{"a", "b"}},
+		{"three-packages-same-nested-call", pkgFiles{"a/a.go": nested("a"), "b/b.go": nested("b"), "c/c.go": nested("c")}, []string{"a", "b", "c"}},
+		{"deep-nested-flat", pkgFiles{"a/a.go": deep("a"), "b/b.go": nested("b"), "c/c.go": flat("c")}, []string{"a", "b", "c"}},
+		{"same-deep-call-twice-and-flat", pkgFiles{"a/a.go": deep("a"), "b/b.go": deep("b"), "c/c.go": flat("c")}, []string{"a", "b", "c"}},
+		{"nested-with-test-file-call", pkgFiles{"a/a.go": nested("a"), "a/a_test.go": "package a\n\nfunc sameT(x, y []string) bool {\n\treturn deriveEqual(x, y)\n}\n", "b/b.go": nested("b")}, []string{"a", "b"}},
+	}
+	type item struct {
+		sc   int
+		args []string
+	}
+	var items []item
+	for i, sc := range scen {
+		items = append(items, item{i, []string{"./..."}})
+		for _, perm := range permutations(sc.pkgs) {
+			var rel, imp []string
+			for _, p := range perm {
+				rel = append(rel, "./"+p)
+				imp = append(imp, "example.com/m/"+p)
+			}
+			items = append(items, item{i, rel}, item{i, imp})
+		}
+	}
+	// the loader hands the packages over in an order of its own: every invocation three times
+	items = append(append(append([]item(nil), items...), items...), items...)
+	parDo(len(items), func(i int) {
+		it := items[i]
+		sc := scen[it.sc]
+		dir := filepath.Join(scratchDir, "c01mp", fmt.Sprintf("m%04d", i))
+		writePkg(dir, sc.files)
+		defer removeAll(dir)
+		r := goderive(dir, it.args...)
+		replay := map[string]interface{}{"engine": "e2", "files": sc.files, "args": it.args}
+		if r.Exit != 0 {
+			rep.Violation("does-not-generate-together|"+sc.name, fmt.Sprintf("goderive %s fails on packages that generate one by one: %s", strings.Join(it.args, " "), head(firstErrorLine(r.Stderr), 200)), replay)
+			return
+		}
+		for _, p := range sc.pkgs {
+			if cp := typeCheckDir(filepath.Join(dir, p), true, nil); len(cp.Errors) > 0 {
+				rep.Violation("does-not-compile-together|"+sc.name, fmt.Sprintf("after goderive %s package %s does not type-check: %s", strings.Join(it.args, " "), p, shortErrs(cp.Errors)), replay)
+				return
+			}
+		}
+	})
+	return len(items)
 }
